@@ -265,6 +265,16 @@ impl<T: Debug + Clone + PartialEq + Eq + PartialOrd + NullableValue + Default> C
                 None
             }
         } else if let Self::Multiple(values) = self {
+            // Each candidate value is listed once, even if the filter argument
+            // it came from (e.g. the list given to `one_of`) repeats it.
+            let mut unique = Vec::with_capacity(values.len());
+            for value in std::mem::take(values) {
+                if !unique.contains(&value) {
+                    unique.push(value);
+                }
+            }
+            *values = unique;
+
             if values.is_empty() {
                 Some(Self::Impossible)
             } else if values.len() == 1 {
